@@ -12,7 +12,7 @@ git checkout -q -- . ; git clean -fdq chitchat chitchat-test
 git apply $SRC/patch.diff || { echo "patch does not apply" >> $LOG; exit 2; }
 cargo build -p chitchat --features verif --offline >> $LOG 2>&1; B1=$?
 cargo test --workspace --no-fail-fast --offline -- --test-threads 6 > $SRC/suite.out 2>&1; S=$?
-FAILED=$(grep -E "^test .* FAILED" $SRC/suite.out | grep -v "test_bandwidth_100\|test_delay_before_dead_detection_100 " | wc -l)
+FAILED=$(grep -E "^test [A-Za-z_:0-9]+ \.\.\. FAILED" $SRC/suite.out | grep -v "test_bandwidth_100\|test_delay_before_dead_detection_100 " | wc -l)
 PASSED=$(grep -E "^test .* ok$" $SRC/suite.out | wc -l)
 git apply $SRC/demo.diff || { echo "demo does not apply on patch" >> $LOG; }
 DEMO_FILTER=${DEMO_FILTER:-seeded_demo}
